@@ -186,12 +186,18 @@ class FaultPlan:
     """
 
     def __init__(self, sites=(), retryable_kinds=(0,), short_sizes=(1,),
-                 max_body_retries=1, only_ops=None):
+                 max_body_retries=1, only_ops=None, only_keys=None):
         self.sites = tuple(sites)
         self.retryable_kinds = tuple(retryable_kinds)
         self.short_sizes = tuple(short_sizes)
         self.max_body_retries = max_body_retries
         self.only_ops = only_ops
+        self.only_keys = only_keys
+
+    def key_ok(self, rec):
+        if self.only_keys is None:
+            return True
+        return rec['kwargs'].get('Key') in self.only_keys
 
     def on(self, label):
         for s in self.sites:
@@ -220,17 +226,24 @@ class FakeStreamingBody:
         if amt is None or amt < 0:
             amt = left
         n = min(amt, left)
-        if plan.on('stream:retryable'):
+        if plan.on('stream:retryable') and plan.key_ok(self._rec):
             k = s.choose(1 + len(plan.retryable_kinds), 'stream:retryable')
             if k:
                 e = make_retryable(plan.retryable_kinds[k - 1], self._rec['id'])
                 c.note_injected(e, 'stream:retryable', self._rec, retryable=True)
                 raise e
-        if plan.on('stream:fatal'):
+        if plan.on('stream:fatal') and plan.key_ok(self._rec):
             if s.choose(2, 'stream:fatal'):
                 e = InjectedReadError('stream fatal ' + self._rec['id'])
                 c.note_injected(e, 'stream:fatal', self._rec, retryable=False)
                 raise e
+        pat = c.stream_pattern
+        if pat == 'one' and n > 1:
+            n = 1
+        elif pat == 'alt' and n > 1 and self.reads % 2 == 0:
+            n = 1
+        elif pat == 'short1' and n > 1 and self.reads == 0:
+            n = n - 1
         if plan.on('stream:short') and n > 1:
             opts = [z for z in plan.short_sizes if z < n]
             if opts:
@@ -254,7 +267,7 @@ class FakeClient:
 
     def __init__(self, s3, sched, plan=NO_FAULTS, rcc='when_required',
                  body_read_size=None, name='client', validate=True,
-                 body_protocols=None):
+                 body_protocols=None, stream_pattern='full'):
         self.s3 = s3
         self.sched = sched
         self.plan = plan
@@ -264,6 +277,7 @@ class FakeClient:
         self.body_read_size = body_read_size
         self.injected = []
         self.body_protocols = body_protocols
+        self.stream_pattern = stream_pattern
 
     # ------------------------------------------------------------ plumbing
     def note_injected(self, exc, label, rec, retryable):
@@ -277,6 +291,14 @@ class FakeClient:
         if not self.validate:
             return
         shape = service_model().operation_model(opname).input_shape
+        if isinstance(kwargs.get('CopySource'), dict):
+            # botocore's handle_copy_source_param turns the dict form into a string
+            # before validation
+            cs = kwargs['CopySource']
+            bad = [k for k in cs if k not in ('Bucket', 'Key', 'VersionId')]
+            if bad or 'Bucket' not in cs or 'Key' not in cs:
+                raise ParamValidationError(report=f'bad CopySource dict {cs}')
+            kwargs = dict(kwargs, CopySource=f"{cs['Bucket']}/{cs['Key']}")
         report = _VALIDATOR.validate(kwargs, shape)
         if report.has_errors():
             self.s3.anomalies.append(('param-validation', opname, report.generate_report()))
@@ -304,7 +326,7 @@ class FakeClient:
     def _fault(self, rec, when):
         label = f"s3:{rec['op']}:{when}"
         plan = self.plan
-        if plan.on(label) and (plan.only_ops is None or rec['op'] in plan.only_ops):
+        if plan.on(label) and (plan.only_ops is None or rec['op'] in plan.only_ops) and plan.key_ok(rec):
             if self.sched.choose(2, label):
                 e = InjectedClientError(rec['op'], f"{rec['id']}:{when}")
                 self.note_injected(e, label, rec, retryable=False)
